@@ -714,12 +714,17 @@ fn sig_j<'tcx>(tcx: TyCtxt<'tcx>, ldid: LocalDefId) -> J {
 /// through ADT fields, generic arguments, pointees; stops at type parameters.
 fn cell_paths<'tcx>(
     tcx: TyCtxt<'tcx>,
+    env: TypingEnv<'tcx>,
     ty: Ty<'tcx>,
     path: &mut Vec<String>,
     seen: &mut BTreeSet<String>,
     out: &mut Vec<String>,
     visited: &mut usize,
 ) {
+    // resolve associated-type projections (e.g. `<Graph<..> as Visitable>::Map`)
+    let ty = tcx
+        .try_normalize_erasing_regions(env, rustc_middle::ty::Unnormalized::new_wip(ty))
+        .unwrap_or(ty);
     let key = ty_s(ty);
     if !seen.insert(key.clone()) {
         return;
@@ -735,27 +740,27 @@ fn cell_paths<'tcx>(
                 for f in &v.fields {
                     let fty = f.ty(tcx, args);
                     path.push(format!("{}.{}", tcx.def_path_str(adt.did()), f.name));
-                    cell_paths(tcx, fty, path, seen, out, visited);
+                    cell_paths(tcx, env, fty, path, seen, out, visited);
                     path.pop();
                 }
             }
             for a in args.iter() {
                 if let Some(t) = a.as_type() {
                     path.push(format!("{}<arg>", tcx.def_path_str(adt.did())));
-                    cell_paths(tcx, t, path, seen, out, visited);
+                    cell_paths(tcx, env, t, path, seen, out, visited);
                     path.pop();
                 }
             }
         }
-        ty::Ref(_, t, _) | ty::RawPtr(t, _) | ty::Slice(t) | ty::Array(t, _) => {
+        ty::Ref(_, t, _) | ty::RawPtr(t, _) | ty::Slice(t) | ty::Array(t, _) | ty::Pat(t, _) => {
             path.push("*".into());
-            cell_paths(tcx, *t, path, seen, out, visited);
+            cell_paths(tcx, env, *t, path, seen, out, visited);
             path.pop();
         }
         ty::Tuple(ts) => {
             for t in ts.iter() {
                 path.push("tuple".into());
-                cell_paths(tcx, t, path, seen, out, visited);
+                cell_paths(tcx, env, t, path, seen, out, visited);
                 path.pop();
             }
         }
@@ -841,7 +846,7 @@ fn dump_crate<'tcx>(tcx: TyCtxt<'tcx>, name: &str, nonce: &str) -> J {
                 let ty = tcx.type_of(did).instantiate_identity().skip_norm_wip();
                 let mut out = Vec::new();
                 let mut visited = 0usize;
-                cell_paths(tcx, ty, &mut vec![], &mut BTreeSet::new(), &mut out, &mut visited);
+                cell_paths(tcx, TypingEnv::post_analysis(tcx, did), ty, &mut vec![], &mut BTreeSet::new(), &mut out, &mut visited);
                 let mut w = J::obj();
                 w.set("root", J::s(&ty_s(ty)));
                 w.set("id", J::s(&tcx.def_path_str(did)));
